@@ -64,7 +64,8 @@ Record event := {
   e_wbytes : Z; e_wcalls : Z; e_wcreates : Z;
   e_aux : Z               (* inquiry calls: 2 = the answer differs from the previous answer of the same call on the same
                              attachment although only mutators and inquiries were called in between (1 = same / first); check: 1 = all files same; dump: 1 = every record of the baseline dump (the first dump
-                             after the snapshot) is present, unchanged, in this dump *)
+                             after the snapshot) is present, unchanged, in this dump; 3 = every interface-level record
+                             (datasets, images, annotations, attributes, user elements / vdatas / vgroups) is *)
 }.
 
 Record st := {
@@ -114,7 +115,10 @@ Definition step (s : st) (e : event) : st * list clause :=
     (* the dump itself runs through read-only handles: it must not write either *)
     let devd := (if negb (any_rw s) && negb (Z.eqb (e_wcalls e) 0) then [WriteReachedDevice] else []) ++
                 (if negb (any_rw s) && negb (Z.eqb (e_wcreates e) 0) then [FileCreated] else []) in
-    if dump0 s then (s, devd ++ if negb (tainted s) && negb (Z.eqb (e_aux e) 1) then [ObjectsChanged] else [])
+    (* while only read-only handles were used every record must be preserved; after a write-mode open without edits
+       the interface-level view must be (the library may materialise bookkeeping objects while reading) *)
+    if dump0 s then (s, devd ++ if negb (tainted s) && negb (Z.eqb (e_aux e) 1) && negb (rw_seen s && Z.eqb (e_aux e) 3)
+                                then [ObjectsChanged] else [])
     else ({| opens := opens s; snapped := true; rw_seen := rw_seen s; tainted := tainted s; dump0 := true |}, devd)
   else if String.eqb name "hopen" then
     let w := wants_write (arg (e_args e) 1) in
